@@ -32,6 +32,16 @@ def table() -> Dict[str, Any]:
     return _TABLE
 
 
+_FAM = {ast.Lt: ('lt', 0), ast.Gt: ('lt', 1), ast.LtE: ('le', 0), ast.GtE: ('le', 1), ast.Eq: ('eq', 0), ast.NotEq: ('ne', 0)}
+
+
+def _strip_not(e: ast.expr) -> Tuple[ast.expr, int]:
+    k = 0
+    while isinstance(e, ast.UnaryOp) and isinstance(e.op, ast.Not):
+        e, k = e.operand, k + 1
+    return e, k % 2
+
+
 def _h(x: Any) -> str:
     return hashlib.sha1(repr(x).encode()).hexdigest()[:12]
 
@@ -70,6 +80,16 @@ def _dump(e: Optional[ast.AST], mask: Dict[str, str]) -> Any:
         return ('N', mask.get(e.id, e.id))
     if isinstance(e, ast.Constant):
         return ('C', repr(e.value))
+    if isinstance(e, ast.Compare) and len(e.ops) == 1 and type(e.ops[0]) in _FAM:
+        fam, rev = _FAM[type(e.ops[0])]
+        a, b = _dump(e.left, mask), _dump(e.comparators[0], mask)
+        if fam in ('lt', 'le'):
+            return ('cmp', fam) + ((b, a) if rev else (a, b))
+        return ('cmp', fam) + tuple(sorted((repr(a), repr(b))))
+    if isinstance(e, ast.IfExp):
+        t, par = _strip_not(e.test)
+        x, y = (e.body, e.orelse) if par == 0 else (e.orelse, e.body)
+        return ('ifexp', _dump(t, mask), _dump(x, mask), _dump(y, mask))
     if isinstance(e, ast.AST):
         out: List[Any] = [type(e).__name__]
         for f, v in ast.iter_fields(e):
@@ -133,6 +153,10 @@ def _items(fn: ast.AST, locs: Set[str], mask: Dict[str, str]) -> Dict[str, List[
                     items[nm].append(('walrus', _dump(n.value, mask)))
         elif isinstance(n, ast.Name) and isinstance(n.ctx, ast.Load) and n.id in items:
             p, f, i = parent.get(id(n), (None, '', None))
+            while isinstance(p, ast.UnaryOp) and isinstance(p.op, ast.Not):          # `not x` is x as far as the context goes
+                p, f, i = parent.get(id(p), (None, '', None))
+            if isinstance(p, ast.IfExp) and f in ('body', 'orelse') and _strip_not(p.test)[1]:
+                f = 'orelse' if f == 'body' else 'body'              # the arms of an inverted conditional expression, put back
             ctx: Any = (type(p).__name__, f)
             if isinstance(p, ast.Call) and f == 'args':
                 ctx = ('arg', _dump(p.func, mask), i, len(p.args))
@@ -146,6 +170,11 @@ def _items(fn: ast.AST, locs: Set[str], mask: Dict[str, str]) -> Dict[str, List[
                 ctx = ('sub', f, _dump(p.slice if f == 'value' else p.value, mask))
             elif isinstance(p, ast.BinOp):
                 ctx = ('binop', type(p.op).__name__, f, _dump(p.right if f == 'left' else p.left, mask))
+            elif isinstance(p, ast.Compare) and len(p.ops) == 1 and type(p.ops[0]) in _FAM:
+                # independent of which way round the comparison is written
+                fam, rev = _FAM[type(p.ops[0])]
+                side = '' if fam in ('eq', 'ne') else ('small' if (f == 'left') != bool(rev) else 'large')
+                ctx = ('cmp', fam, side, _dump(p.comparators[0] if f == 'left' else p.left, mask))
             elif isinstance(p, ast.Compare):
                 ctx = ('cmp', tuple(type(o).__name__ for o in p.ops), f, _dump(p.comparators[0] if f == 'left' else p.left, mask))
             items[n.id].append(('use', ctx))
@@ -231,8 +260,11 @@ def renormalize_py(tree: ast.Module, rel: str) -> int:
         entries = ref.get(q)
         if not entries or k >= len(entries):
             continue
+        shapes = entries[k].get('__shapes__')
+        if shapes:
+            n += inline_named_conditions(fn, shapes)
         cur = py_sigs(fn)
-        ref_e = {k_: v_ for k_, v_ in entries[k].items() if k_ != '__params__'}
+        ref_e = {k_: v_ for k_, v_ in entries[k].items() if not k_.startswith('__')}
         mp = match(cur, ref_e) if cur else {}
         # parameters of a private function (leading underscore, or nested in a function) that nobody passes by keyword are matched by
         # position: renaming one is a local rename
@@ -249,10 +281,14 @@ def renormalize_py(tree: ast.Module, rel: str) -> int:
                 if x.arg != r and x.arg not in ('self', 'cls') and r not in ('self', 'cls') and x.arg not in kw_used:
                     pmap[x.arg] = r
         if not mp and not pmap:
+            if shapes:
+                n += unspell_py(fn, shapes)
             continue
         # parameters / free names of the function must not collide with a target name
         all_map = {**mp, **pmap}
         if len(set(all_map.values())) != len(all_map):
+            if shapes:
+                n += unspell_py(fn, shapes)
             continue
         free = {x.id for x in ast.walk(fn) if isinstance(x, ast.Name)} - set(cur) - set(pmap)
         if set(all_map.values()) & (free | ({x.arg for x in cur_params} - set(pmap)) | (set(cur) - set(mp))):
@@ -270,6 +306,8 @@ def renormalize_py(tree: ast.Module, rel: str) -> int:
             if isinstance(x, ast.Name) and x.id in mp and not (id(x) in inner and x.id in nested_locals):
                 x.id = mp[x.id]
                 n += 1
+        if shapes:
+            n += unspell_py(fn, shapes)
     return n
 
 
@@ -280,6 +318,7 @@ def gen_py(tree: ast.Module) -> Dict[str, List[Dict[str, List[str]]]]:
         e: Dict[str, Any] = {v: [a, b] for v, (a, b) in sorted(s.items())}
         a_ = fn.args                                # type: ignore[attr-defined]
         e['__params__'] = [x.arg for x in a_.posonlyargs + a_.args + a_.kwonlyargs]
+        e['__shapes__'] = py_shapes(fn)
         out.setdefault(q, []).append(e)
     return out
 
@@ -453,7 +492,7 @@ def renormalize_c(text: str, tu: Dict[str, Any], rel: str) -> Optional[str]:
         if not entries:
             continue
         cur = c_sigs(fn)
-        mp = match(cur, {k_: v_ for k_, v_ in entries[0].items() if k_ != '__params__'})
+        mp = match(cur, {k_: v_ for k_, v_ in entries[0].items() if not k_.startswith('__')})
         # parameters of a static function are matched by position (C calls are positional): a renamed parameter is a local rename
         ref_params = entries[0].get('__params__')
         cur_params = [c.get('name') for c in fn.get('inner', []) if isinstance(c, dict) and c.get('kind') == 'ParmVarDecl']
@@ -481,5 +520,217 @@ def gen_c(repo: Any, rel: str = 'flipjump/interpreter/_fjcore.c') -> Dict[str, A
     for name, fn in c_functions(cu.tu).items():
         e: Dict[str, Any] = {v: [a, b] for v, (a, b) in sorted(c_sigs(fn).items())}
         e['__params__'] = [c.get('name') for c in fn.get('inner', []) if isinstance(c, dict) and c.get('kind') == 'ParmVarDecl']
+        e['__cmp__'] = c_shapes(fn)
         out[name] = [e]
     return {rel: out}
+
+
+# ---------------------------------------------------------------- python: three more spellings undone relative to the reference
+#   a comparison turned round (a < b  <->  b > a, 8 == n  <->  n == 8)
+#   an if / else (or conditional expression) inverted (if not c: B else: A)
+#   a condition bound to a local first (c = COND; if c: ..)
+# each is recognised through a key that does not depend on the spelling and is put back into the orientation the reference
+# function has for the same key. nothing is changed when the key is unknown or ambiguous in the reference.
+
+_UNFAM = {('lt', 0): ast.Lt, ('lt', 1): ast.Gt, ('le', 0): ast.LtE, ('le', 1): ast.GtE}
+
+
+def _kdump(e: Any) -> Any:
+    """spelling-independent dump: comparisons by family with the operand pair normalised (for < / <= the smaller side first), leading
+    `not`s kept"""
+    if isinstance(e, ast.Compare) and len(e.ops) == 1 and type(e.ops[0]) in _FAM:
+        fam, rev = _FAM[type(e.ops[0])]
+        a, b = _kdump(e.left), _kdump(e.comparators[0])
+        if fam in ('lt', 'le'):
+            lo, hi = (b, a) if rev else (a, b)
+            return ('cmp', fam, lo, hi)
+        return ('cmp', fam) + tuple(sorted((repr(a), repr(b))))
+    if isinstance(e, ast.Name):
+        return ('N', e.id)
+    if isinstance(e, ast.Constant):
+        return ('C', repr(e.value))
+    if isinstance(e, ast.AST):
+        out: List[Any] = [type(e).__name__]
+        for f, v in ast.iter_fields(e):
+            if f in ('ctx', 'type_comment', 'lineno', 'col_offset', 'end_lineno', 'end_col_offset'):
+                continue
+            out.append((f, _kdump(v) if isinstance(v, ast.AST) else [_kdump(x) for x in v] if isinstance(v, list) else v))
+        return tuple(out)
+    return e
+
+
+def py_shapes(fn: ast.AST) -> Dict[str, Any]:
+    """the orientation facts of one function: comparisons (key -> text of the left operand), if/else polarities (key -> parity of
+    the leading nots), the keys of all if-tests"""
+    cmps: Dict[str, Set[str]] = {}
+    ifs: Dict[str, Set[int]] = {}
+    tests: Set[str] = set()
+    for n in ast.walk(fn):
+        if isinstance(n, ast.Compare) and len(n.ops) == 1 and type(n.ops[0]) in _FAM:
+            cmps.setdefault(_h(_kdump(n)), set()).add(_h(_kdump(n.left)))
+        if isinstance(n, (ast.If, ast.IfExp)) and n.orelse:
+            t, par = _strip_not(n.test)
+            ifs.setdefault(_h(_kdump(t)), set()).add(par)
+        if isinstance(n, ast.If):
+            tests.add(_h(_kdump(_strip_not(n.test)[0])))
+    locs = py_locals(fn)
+    tests0 = sorted({_h(_mdump(_strip_not(n.test)[0], locs)) for n in ast.walk(fn) if isinstance(n, ast.If)})
+    return {'cmp': {k: sorted(v) for k, v in cmps.items()}, 'if': {k: sorted(v) for k, v in ifs.items()}, 'tests0': tests0}
+
+
+def _mdump(e: ast.AST, locs: Set[str]) -> Any:
+    """_kdump with the function's locals masked"""
+    class M_(ast.NodeTransformer):
+        def visit_Name(self, node: ast.Name) -> ast.AST:
+            return ast.Name(id='_', ctx=node.ctx) if node.id in locs else node
+    import copy
+    return _kdump(M_().visit(copy.deepcopy(e)))
+
+
+def inline_named_conditions(fn: ast.AST, ref: Dict[str, Any]) -> int:
+    """a condition bound to a local right in front of its `if` and used nowhere else reads as the condition itself, when the
+    reference function tests that condition (compared with all locals masked, so it works before the locals are renamed back)"""
+    n_changes = 0
+    locs = py_locals(fn)
+    loads: Dict[str, int] = {}
+    stores: Dict[str, int] = {}
+    for x in ast.walk(fn):
+        if isinstance(x, ast.Name):
+            d = loads if isinstance(x.ctx, ast.Load) else stores
+            d[x.id] = d.get(x.id, 0) + 1
+    tests = set(ref.get('tests0', []))
+
+    def fix_block(stmts: List[ast.stmt]) -> List[ast.stmt]:
+        nonlocal n_changes
+        out: List[ast.stmt] = []
+        i = 0
+        while i < len(stmts):
+            st = stmts[i]
+            nx = stmts[i + 1] if i + 1 < len(stmts) else None
+            if isinstance(st, ast.Assign) and len(st.targets) == 1 and isinstance(st.targets[0], ast.Name) and isinstance(nx, ast.If) \
+                    and isinstance(nx.test, ast.Name) and nx.test.id == st.targets[0].id and stores.get(nx.test.id) == 1 and loads.get(nx.test.id) == 1 \
+                    and _h(_mdump(_strip_not(st.value)[0], locs)) in tests:
+                nx.test = st.value
+                n_changes += 1
+                i += 1
+                continue
+            out.append(st)
+            i += 1
+        return out
+    for node in ast.walk(fn):
+        for f in ('body', 'orelse', 'finalbody'):
+            v = getattr(node, f, None)
+            if isinstance(v, list) and v and isinstance(v[0], ast.stmt):
+                setattr(node, f, fix_block(v))
+        if isinstance(node, ast.Try):
+            for h in node.handlers:
+                h.body = fix_block(h.body)
+    if n_changes:
+        ast.fix_missing_locations(fn)
+    return n_changes
+
+
+def unspell_py(fn: ast.AST, ref: Dict[str, Any]) -> int:
+    n_changes = 0
+    # (2) if / else polarity
+    for node in ast.walk(fn):
+        if isinstance(node, (ast.If, ast.IfExp)) and node.orelse:
+            t, par = _strip_not(node.test)
+            want = ref.get('if', {}).get(_h(_kdump(t)))
+            if want is not None and len(want) == 1 and want[0] != par:
+                node.test = t if want[0] == 0 else ast.UnaryOp(op=ast.Not(), operand=t)
+                node.body, node.orelse = node.orelse, node.body
+                n_changes += 1
+    # (3) orientation of comparisons
+    for node in ast.walk(fn):
+        if isinstance(node, ast.Compare) and len(node.ops) == 1 and type(node.ops[0]) in _FAM:
+            want = ref.get('cmp', {}).get(_h(_kdump(node)))
+            if want is not None and len(want) == 1 and want[0] != _h(_kdump(node.left)) and want[0] == _h(_kdump(node.comparators[0])):
+                fam, rev = _FAM[type(node.ops[0])]
+                node.left, node.comparators = node.comparators[0], [node.left]
+                if fam in ('lt', 'le'):
+                    node.ops = [_UNFAM[(fam, 1 - rev)]()]
+                n_changes += 1
+    if n_changes:
+        ast.fix_missing_locations(fn)
+    return n_changes
+
+
+# ---------------------------------------------------------------- C: comparisons turned round, put back (second stage, after the renames)
+
+_CFAM = {'<': ('lt', 0), '>': ('lt', 1), '<=': ('le', 0), '>=': ('le', 1), '==': ('eq', 0), '!=': ('ne', 0)}
+_CUNFAM = {('lt', 0): '<', ('lt', 1): '>', ('le', 0): '<=', ('le', 1): '>='}
+
+
+def _c_cmp_key(n: Dict[str, Any], pm: Dict[str, str]) -> Optional[Tuple[str, str]]:
+    """(spelling-independent key, hash of the left operand) of a two-operand comparison"""
+    if n.get('kind') != 'BinaryOperator' or n.get('opcode') not in _CFAM:
+        return None
+    kids = [c for c in n.get('inner', []) if isinstance(c, dict)]
+    if len(kids) != 2:
+        return None
+    fam, rev = _CFAM[n['opcode']]
+    a, b = _c_dump(kids[0], pm), _c_dump(kids[1], pm)
+    if fam in ('lt', 'le'):
+        lo, hi = (b, a) if rev else (a, b)
+        key = _h(('cmp', fam, lo, hi))
+    else:
+        key = _h(('cmp', fam) + tuple(sorted((repr(a), repr(b)))))
+    return key, _h(a)
+
+
+def c_shapes(fn: Dict[str, Any]) -> Dict[str, List[str]]:
+    pm = {c.get('name'): f'P{i}' for i, c in enumerate(x for x in fn.get('inner', []) if isinstance(x, dict) and x.get('kind') == 'ParmVarDecl') if c.get('name')}
+    out: Dict[str, Set[str]] = {}
+    for n in _c_walk(fn):
+        k = _c_cmp_key(n, pm)
+        if k:
+            out.setdefault(k[0], set()).add(k[1])
+    return {k: sorted(v) for k, v in out.items()}
+
+
+def _c_span(n: Dict[str, Any]) -> Optional[Tuple[int, int]]:
+    r = n.get('range', {})
+    b, e = r.get('begin', {}), r.get('end', {})
+    if 'offset' not in b or 'offset' not in e or 'spellingLoc' in b or 'expansionLoc' in b or 'spellingLoc' in e or 'expansionLoc' in e:
+        return None
+    return b['offset'], e['offset'] + e.get('tokLen', 1)
+
+
+def unflip_c(text: str, tu: Dict[str, Any], rel: str) -> Optional[str]:
+    ref = table().get(rel)
+    if not ref:
+        return None
+    edits: List[Tuple[int, int, str]] = []
+    for name, fn in c_functions(tu).items():
+        entries = ref.get(name)
+        shapes = entries[0].get('__cmp__') if entries else None
+        if not shapes:
+            continue
+        pm = {c.get('name'): f'P{i}' for i, c in enumerate(x for x in fn.get('inner', []) if isinstance(x, dict) and x.get('kind') == 'ParmVarDecl') if c.get('name')}
+        for n in _c_walk(fn):
+            k = _c_cmp_key(n, pm)
+            if not k:
+                continue
+            want = shapes.get(k[0])
+            kids = [c for c in n.get('inner', []) if isinstance(c, dict)]
+            if want is None or len(want) != 1 or want[0] == k[1] or want[0] != _h(_c_dump(kids[1], pm)):
+                continue
+            sa, sb, sn = _c_span(kids[0]), _c_span(kids[1]), _c_span(n)
+            if not (sa and sb and sn) or text[sa[1]:sb[0]].strip() != n['opcode']:
+                continue
+            fam, rev = _CFAM[n['opcode']]
+            op = _CUNFAM[(fam, 1 - rev)] if fam in ('lt', 'le') else n['opcode']
+            edits.append((sn[0], sn[1], f'{text[sb[0]:sb[1]]} {op} {text[sa[0]:sa[1]]}'))
+    kept: List[Tuple[int, int, str]] = []
+    for e_ in sorted(edits, key=lambda t: (t[0], -t[1])):
+        if all(e_[0] >= k_[1] or e_[1] <= k_[0] for k_ in kept):
+            kept.append(e_)
+    if not kept:
+        return None
+    out = text
+    for a_, b_, rep_ in sorted(kept, reverse=True):
+        if '\n' in out[a_:b_] and '\n' not in rep_:
+            rep_ = rep_ + '\n' * out[a_:b_].count('\n')          # lines keep their numbers
+        out = out[:a_] + rep_ + out[b_:]
+    return out
